@@ -7,7 +7,7 @@ From Raven Require Import Base.GoStr Model.Pattern Model.Names Spec.Names.
 Import ListNotations.
 
 Definition obox := (str * list (Z * Z) * Z)%type.
-(** boxes (rowid order), subscriptions, rows of [messages], tagged result, names shown / STATUS count *)
+(** boxes (rowid order), subscriptions, rows of [messages], tagged result, name tokens shown (raw, as on the wire) / STATUS count *)
 Definition ostep := (list obox * list str * Z * res * list str)%type.
 
 Definition box_of (o : obox) : mbox := let '(n, m, x) := o in MkBox n m x.
@@ -43,12 +43,24 @@ Definition agrees (exact : bool) (r : store * res * list str) (cur : store) (ro 
   && res_eqb r' ro
   && set_eqb str_eqb v' view.
 
+(** the tokens shown by LIST/LSUB (and the STATUS count) as the client reads them *)
+Fixpoint decode_view (v : list str) : option (list str) :=
+  match v with
+  | [] => Some []
+  | t :: v' => match decode_astring t, decode_view v' with
+               | Some n, Some l => Some (n :: l)
+               | _, _ => None
+               end
+  end.
+Definition spec_agrees (r : store * res * list str) (cur : store) (ro : res) (view : list str) : bool :=
+  match decode_view view with Some dv => agrees false r cur ro dv | None => false end.
+
 (** 1: model agrees   2: spec agrees   4*class   64: command in the property's domain *)
 Definition judge (prev : store) (c : cmd) (o : ostep) : nat * store :=
   let '(bs, sb, nm, ro, view) := o in
   let cur := store_of bs sb nm in
   ((if agrees true (run_cmd prev c) cur ro view then 1 else 0)
-   + (if agrees false (spec_step prev c) cur ro view then 2 else 0)
+   + (if spec_agrees (spec_step prev c) cur ro view then 2 else 0)
    + 4 * cls_code (classify prev c)
    + (if valid_cmd c then 64 else 0), cur).
 
@@ -60,6 +72,6 @@ Fixpoint judge_trace (prev : store) (h : list cmd) (os : list ostep) : list nat 
 
 (** does the model's step agree with the spec's step (as sets)? *)
 Definition refines_at (st : store) (c : cmd) : bool :=
-  let '(m, rm, vm) := run_cmd st c in agrees false (spec_step st c) m rm vm.
+  let '(m, rm, vm) := run_cmd st c in spec_agrees (spec_step st c) m rm vm.
 Definition state_after (h : list cmd) : store :=
   fold_left (fun st c => fst (fst (run_cmd st c))) h init_store.
